@@ -627,10 +627,20 @@ def run_workload(ch: Choices, variant: str, callers: List[List[dict]], uploads_s
         log_restore.append((_root, _h, _root.level))
         _root.addHandler(_h)
         _root.setLevel(_logging.DEBUG)
+    import warnings as _warnings
+    wctx = None
+    if sched_knobs.get("user_warnings_as_errors"):
+        # the application (or its test suite) turns UserWarning into errors: a warning issued while a response is classified
+        # must not replace the documented outcome
+        wctx = _warnings.catch_warnings()
+        wctx.__enter__()
+        _warnings.simplefilter("error", UserWarning)
     try:
         return _run_workload(ch, variant, callers, uploads_spec, server_factory, own_transport, concurrent, sched_knobs,
                              info, recs, by_caller, shared_headers, attempt_counter)
     finally:
+        if wctx is not None:
+            wctx.__exit__(None, None, None)
         for _root, _h, _lvl in log_restore:
             _root.removeHandler(_h)
             _root.setLevel(_lvl)
